@@ -61,5 +61,21 @@ Definition run_c13 (x : sx) : sx :=
                                      sx_str (snd p)]) (dec_flat_obj s')
     | None => sx_bad
     end
+  (* 13: json.dumps of a list of flat dicts of str -> str *)
+  | L [A 13; l] =>
+    match list_of_sx (list_of_sx (fun p => match p with
+                               | L [k; v] => match str_of_sx k, str_of_sx v with
+                                             | Some k', Some v' => Some (k', v') | _, _ => None end
+                               | _ => None end)) l with
+    | Some l' => sx_str (enc_obj_list l')
+    | None => sx_bad
+    end
+  (* 14: raw_decode of a list of flat objects *)
+  | L [A 14; s] =>
+    match str_of_sx s with
+    | Some s' => sx_opt (fun p => L [sx_list (sx_list (fun kv => L [sx_str (fst kv); sx_str (snd kv)])) (fst p);
+                                     sx_str (snd p)]) (dec_obj_list s')
+    | None => sx_bad
+    end
   | _ => sx_bad
   end.
